@@ -28,6 +28,8 @@ type Harness struct {
 	MapPermMax int
 	MaxMake    int
 	GoMaxProcs int
+	SkipInit   bool     // do not run the harness package's init
+	InitPkgs   []string // packages to initialise instead
 	Sched      bool
 	Preempt    int
 	Covers     []string
@@ -387,7 +389,17 @@ func RunPath(w *World, h *Harness, prefix []int, procs []*smt.Proc, concrete []u
 		if m.h.Sched {
 			m.sched = newCoopSched(m, i)
 		}
-		if initFn := h.Fn.Pkg.Func("init"); initFn != nil {
+		if h.SkipInit {
+			// the harness package's own initialisers are not run (stated in the
+			// spec); only the listed packages are initialised
+			for _, pn := range h.InitPkgs {
+				if p := w.Prog.ImportedPackage(pn); p != nil {
+					if initFn := p.Func("init"); initFn != nil {
+						call(i, nil, token.NoPos, initFn, nil)
+					}
+				}
+			}
+		} else if initFn := h.Fn.Pkg.Func("init"); initFn != nil {
 			call(i, nil, token.NoPos, initFn, nil)
 		}
 		if m.sched != nil {
